@@ -346,14 +346,23 @@ def run_group(low, g, tier, keep=False, cell=None):
         elif not reach_ok:
             res.update(status="UNDECIDED", reason="VACUOUS: end of harness unreachable (contradictory assumptions or the call never returns)")
     if any(o["status"] == "UNWIND" for o in res["obligations"]):
-        res.update(status="UNDECIDED", reason="unwinding assertion failed (bound %s too small for the current code)" % a.get("unwind"))
+        if any(o["status"] == "FAILURE" for o in res["obligations"]):
+            # a counterexample found INSIDE the unwinding bound is a real execution (paths beyond the bound end at the failed
+            # unwinding assertion, they are not continued): report it; the native replay decides whether it is confirmed
+            res["note"] = "an unwinding assertion failed as well (bound %s): the obligations that did not fail are undecided" % a.get("unwind")
+        else:
+            res.update(status="UNDECIDED", reason="unwinding assertion failed (bound %s too small for the current code)" % a.get("unwind"))
     if g.mode == "contract" and a.get("loops", "0") == "1":
         if not any("loop invariant" in o["desc"].lower() or "loop_invariant" in o["id"] for o in res["obligations"]):
             res.update(status="UNDECIDED", reason="loop contract was silently dropped (no loop-invariant obligations generated)")
     if not res["obligations"]:
         res.update(status="UNDECIDED", reason="zero obligations generated")
-    if res["status"] == "OK" and any(o["status"] == "FAILURE" for o in res["obligations"]):
-        res["status"] = "FAILED"
+    if any(o["status"] == "FAILURE" for o in res["obligations"]) and (res["status"] == "OK" or "vacuity guard" in res["reason"] or res["reason"].startswith("VACUOUS")):
+        # a counterexample is a real execution: it is reported even when the vacuity guard was not reached / not generated
+        # (e.g. a violation harness whose handler is never called because the precondition check was compiled out)
+        if res["status"] != "OK":
+            res["note"] = res["reason"]
+        res.update(status="FAILED", reason="")
     if res["status"] == "OK" and any(o["status"] not in ("SUCCESS",) for o in res["obligations"]):
         res.update(status="UNDECIDED", reason="obligation with status " + ",".join(sorted(set(o["status"] for o in res["obligations"]))))
     res["wall_s"] = round(time.time() - t0, 2)
